@@ -110,7 +110,11 @@ REPLAY = {'program': check_program}
 # --------------------------------------------------------------------------
 # generator
 
-NAMES = ['x', 'y', 'v', 'e']
+# (besides ordinary names: names of hidden/injected parameters and of the
+# library's own python parameters, which a careless signature could shadow)
+NAMES = ['x', 'y', 'v', 'e', 'x', 'y', 'context', 'engine', 'args', 'kwargs',
+         'self', 'name', 'receiver', 'func', 'value', 'yaql_interface',
+         'sequence', 'collection']
 FNAMES = ['f', 'g']
 
 
@@ -209,6 +213,9 @@ class Gen:
         if kind == 'with':
             vals = [self.g_int(sc, d + 1) for _ in range(
                 self.draw(st.integers(1, 2)))]
+            if self.chance(6):
+                vals = [('int', i) for i in range(
+                    self.draw(st.integers(9, 12)))]
             if sc.pos:
                 self.features.add('shadow')
             body = self.gen(typ, sc.with_pos(['int'] * len(vals)), d + 1)
@@ -496,12 +503,18 @@ def programs(max_depth):
             inner = sc.push()
             body = draw(st.sampled_from([
                 ('list', (('var', '$1'), ('var', '$2'))),
-                ('list', (('var', '$2'), ('var', '$'), ('var', '$3')))]))
+                ('list', (('var', '$2'), ('var', '$'), ('var', '$3'))),
+                ('list', (('var', '$9'), ('var', '$10'), ('var', '$11'),
+                          ('var', '$1'))),
+                ('list', (('var', '$8'), ('var', '$12'), ('var', '$10')))]))
             calls = []
+            many = body[1][0][1] in ('$9', '$8')
             for _ in range(draw(st.integers(2, 3))):
+                n_args = draw(st.integers(8, 13)) if many else \
+                    draw(st.integers(0, 3))
                 calls.append(('callf', 'h', tuple(
-                    g.g_int(inner, 2) for _ in range(
-                        draw(st.integers(0, 3))))))
+                    ('int', draw(st.integers(-3, 30))) if many else
+                    g.g_int(inner, 2) for _ in range(n_args))))
             ast = ('def', 'h', body, ('list', tuple(calls) + (
                 g.gen(typ, inner, 2),)))
         else:
